@@ -32,6 +32,7 @@ class P:
     peer: Any = None
     idx: int = -1
     groups: tuple = ()
+    dmap: dict = field(default_factory=dict)
 
     def big(self):
         # a user predicate that can be told to raise at its j-th call (C04: evaluations aborted by an exception from user code)
@@ -164,7 +165,7 @@ def make_heap(case):
     seq = list if case.get('list_items') else tuple          # inner collections as (mutable) lists or as tuples
     nest = lambda g: seq(seq(x) if isinstance(x, list) else x for x in g)       # a collection of collections (and scalars)
     objs = [P(a=o[0], b=o[1], s=o[2], items=seq(o[3]), n=o[4], f=o[5], pair=tuple(o[6]), idx=i,
-              groups=nest(o[9]) if len(o) > 9 else ())
+              groups=nest(o[9]) if len(o) > 9 else (), dmap=dict.fromkeys(o[10]) if len(o) > 10 else {})
             for i, o in enumerate(case['heap'])]
     for i, o in enumerate(case['heap']):
         objs[i].peer = objs[o[7]['o']]
@@ -189,6 +190,8 @@ def user_data_intact(case, objs):
                 or o.peer is not objs[d[7]['o']]:
             return False
         if len(d) > 9 and [list(x) if isinstance(x, (list, tuple)) else x for x in o.groups] != d[9]:
+            return False
+        if len(d) > 10 and list(o.dmap) != d[10]:
             return False
     return True
 
